@@ -7,7 +7,8 @@
    post-state (committed samples per channel, domains with adjacent ones merged). *)
 EXTENDS CesiumStore, Json, SequencesExt
 CONSTANTS Depth,
-          DeletesOn   \* FALSE: write-only scripts (C01); TRUE: deletes and GC interleaved (C04)
+          DeletesOn,  \* FALSE: write-only scripts (C01); TRUE: deletes and GC interleaved (C04)
+          PlanId      \* 0: free random walk; n > 0: the walk follows scenario plan n (simulation only)
 VARIABLES hist,
           unsure   \* [Chan -> SUBSET Time]: points whose domain coverage the model does not pin
 gvars == <<vars, hist, unsure>>
@@ -106,21 +107,47 @@ LegalWrites(w) == {ts \in SUBSET Even : ts # {} /\ Cardinality(ts) <= MaxLen /\ 
 Sel == 0..3
 NT == Cardinality(Time)
 GEnd == /\ Len(hist) = Depth /\ hist' = Append(hist, [a |-> "end"]) /\ UNCHANGED <<vars, unsure>>
+\* ---- scenario plans: the KIND of each step is prescribed, the arguments stay random.
+\* A free walk rarely strings together e.g. "write, delete everything, rewrite from an
+\* earlier start, delete the new head, read"; plans make such multi-step scenarios common.
+Plans == <<
+  \* 1: rewrite after delete, then cut the rewritten data
+  <<"open", "write", "write", "close", "delete", "open", "write", "write", "close", "delete", "gc", "reopen", "delete", "open", "write", "close">>,
+  \* 2: two sessions, then deletes spanning both, GC, reopen
+  <<"open", "write", "close", "open", "write", "write", "close", "delete", "gc", "delete", "reopen", "open", "write", "close", "delete", "gc">>,
+  \* 3: index first, data-only writers afterwards, deletes of data only, data-only rewrite
+  <<"open", "write", "write", "close", "open", "write", "close", "delete", "open", "write", "close", "reopen", "delete", "gc", "open", "write">>,
+  \* 4: explicit commits, several commits per session, reopen between
+  <<"open", "write", "commit", "write", "commit", "close", "reopen", "open", "write", "commit", "close", "delete", "gc", "reopen", "delete", "gc">>
+>>
+CanKind(kd) ==
+  CASE kd = "open" -> ClosedW # {}
+    [] kd = "write" -> \E w \in OpenW : LegalWrites(w) # {}
+    [] kd = "commit" -> \E w \in OpenW : ~wr[w].auto
+    [] kd = "close" -> OpenW # {}
+    [] kd = "delete" -> DeletesOn /\ AllClosed /\ AnyData
+    [] kd = "gc" -> DeletesOn
+    [] kd = "reopen" -> AllClosed /\ AnyData
+    [] OTHER -> FALSE
+Planned == IF PlanId = 0 \/ Len(hist) >= Len(Plans[PlanId]) THEN "any"
+           ELSE IF CanKind(Plans[PlanId][Len(hist) + 1]) THEN Plans[PlanId][Len(hist) + 1] ELSE "any"
+KindOK(kd) == Planned = "any" \/ Planned = kd
 GNextSim == GEnd \/
   /\ Len(hist) < Depth
   /\ \E k \in 1..10, i \in Sel, j \in Sel, m \in Sel :
-       \/ /\ k = 1 /\ ClosedW # {}
+       \/ /\ k = 1 /\ ClosedW # {} /\ KindOK("open")
           /\ LET cs == Nth(ChanSets, j) st == (m + 4 * i) % NT
              IN UsefulOpen(cs, st) /\ GOpen(Nth(ClosedW, i), cs, st, (i + j) % 2 = 0)
-       \/ /\ k \in {2, 3, 4, 5} /\ OpenW # {}
+       \/ /\ k \in {2, 3, 4, 5} /\ OpenW # {} /\ KindOK("write")
           /\ LET w == Nth(OpenW, i) IN LegalWrites(w) # {} /\ GWrite(w, Nth(LegalWrites(w), m + 4 * j + 16 * (k - 2)))
-       \/ /\ k = 6 /\ OpenW # {} /\ j = 0
-          /\ LET w == Nth(OpenW, i) IN (wr[w].buf # {} \/ m = 0) /\ GCommit(w)
-       \/ /\ k = 7 /\ OpenW # {} /\ j = 0 /\ m < 2
+       \/ /\ k = 6 /\ OpenW # {} /\ j = 0 /\ KindOK("commit")
+          /\ LET w == Nth(OpenW, i) IN (wr[w].buf # {} \/ m = 0) /\ ~wr[w].auto /\ GCommit(w)
+       \/ /\ k = 7 /\ OpenW # {} /\ j = 0 /\ m < 2 /\ KindOK("close")
           /\ LET w == Nth(OpenW, i) IN (wr[w].n > 0 \/ LegalWrites(w) = {}) /\ GClose(w)
        \/ /\ k = 8 /\ j < 2 /\ AnyData
-          /\ (IF i < 2 THEN ~LastIs("reopen") /\ GReopen ELSE DeletesOn /\ (LastIs("delete") \/ LastIs("reopen")) /\ GGC)
-       \/ /\ k \in {9, 10} /\ DeletesOn
+          /\ (IF i < 2 THEN ~LastIs("reopen") /\ KindOK("reopen") /\ GReopen
+              ELSE DeletesOn /\ KindOK("gc") /\ (LastIs("delete") \/ LastIs("reopen") \/ Planned = "gc") /\ GGC)
+       \/ /\ k \in {9, 10} /\ DeletesOn /\ KindOK("delete")
           /\ LET a == (j + 4 * (k - 9) + 2 * (i % 2)) % NT
                  b == a + m + (IF i > 1 THEN 4 ELSE 0)
                  cs == Nth(DeleteSets, i + j)
